@@ -1033,6 +1033,10 @@ impl ActiveFile {
 
         let file = fs.open_existing(file_path)?;
 
+        // The file may have been created by an attempt that failed before its
+        // directory entry was synced, so make sure it's durable before relying on it
+        fs.sync_parent(file_path)?;
+
         let file_size_bytes = file.len()?;
 
         Ok(ActiveFile {
